@@ -113,24 +113,37 @@ def analyse_predicate(ctx, prog, chk, fn, kind):
             k = k[2]
         return k == ak
 
+    def strip_key(k):
+        while isinstance(k, tuple) and k and k[0] in ("u",):
+            k = k[2]
+        return k
+
     def tokens(e, pre):
-        """obligation tokens a truthy value of e implies"""
+        """obligation tokens a truthy value of e implies; tests already decided on the path to the assignment (the facts
+        in force: `if (on_curve(a)) r = (cmp == EQ); else r = 0;`) count like conjuncts of the assigned expression"""
         out = set()
+        items = []
         for c, op, k in conjuncts(fn, e):
-            nm = c[1] or ""
-            if (ONCURVE.match(nm) if kind != "gt" else CYC.match(nm)) and c[2] and is_elem(fn, c[2][0]) and engines.entails(op, k, "!=", 0):
+            items.append((c[1] or "", [key(fn, x) for x in c[2]], [ir.peel(fn, x) for x in c[2]], op, k))
+        for x in pre:
+            if x[0] == "cmp" and isinstance(x[1], tuple) and x[1] and x[1][0] == "c" and isinstance(x[1][1], str):
+                items.append((x[1][1], list(x[1][2]), [None] * len(x[1][2]), x[2], x[3]))
+        for nm, ak_, ap_, op, k in items:
+            first_is_elem = bool(ak_) and strip_key(ak_[0]) == ak
+            second_is_one = len(ak_) == 2 and (ak_[1] == ("i", 1) or (isinstance(ap_[1], list) and ap_[1][:2] == ["i", 1]))
+            if (ONCURVE.match(nm) if kind != "gt" else CYC.match(nm)) and ak_ and first_is_elem and engines.entails(op, k, "!=", 0):
                 out.add("CURVE")
             elif CMP.match(nm) and engines.entails(op, k, "==", 0):
                 out.add("REL")
-                if kind == "gt" and any(("ev", "exact", key(fn, x)) in pre for x in c[2]):
+                if kind == "gt" and any(("ev", "exact", x) in pre for x in ak_):
                     out.add("CURVE")    # a^(r-1) == a^-1 decides membership without the cyclotomic test
-            elif IDENT.match(nm) and c[2] and not is_elem(fn, c[2][0]) and engines.entails(op, k, "!=", 0):
+            elif IDENT.match(nm) and ak_ and not first_is_elem and engines.entails(op, k, "!=", 0):
                 out.add("REL")          # the relation is `combination == identity`
-            elif IDENT.match(nm) and c[2] and is_elem(fn, c[2][0]) and engines.entails(op, k, "==", 0):
+            elif IDENT.match(nm) and ak_ and first_is_elem and engines.entails(op, k, "==", 0):
                 out.add("ID")
-            elif UNITY.match(nm) and len(c[2]) == 2 and not is_elem(fn, c[2][0]) and (ir.peel(fn, c[2][1]) or [None])[:2] == ["i", 1] and engines.entails(op, k, "==", 0):
+            elif UNITY.match(nm) and second_is_one and not first_is_elem and engines.entails(op, k, "==", 0):
                 out.add("REL")          # `combination == unity`
-            elif UNITY.match(nm) and len(c[2]) == 2 and is_elem(fn, c[2][0]) and (ir.peel(fn, c[2][1]) or [None])[:2] == ["i", 1] and engines.entails(op, k, "!=", 0):
+            elif UNITY.match(nm) and second_is_one and first_is_elem and engines.entails(op, k, "!=", 0):
                 out.add("ID")
         # path conditions that replace the relation
         for x in pre:
@@ -176,8 +189,9 @@ def analyse_predicate(ctx, prog, chk, fn, kind):
             if not old and isinstance(r, list) and r[0] == "i" and r[1] == 0:
                 out.append(("ev", "vg0"))
                 continue
-            if old:
-                out += [x for x in pre if x[0] == "ev" and x[1] in ("vg", "vg0")]
+            if old or engines.holds_cmp(pre, ("v", vv), "!=", 0):
+                # the old value is kept (&=), or the assignment stands where the old verdict was found truthy
+                out += [x for x in pre if x[0] == "ev" and x[1] == "vg"] + ([x for x in pre if x == ("ev", "vg0")] if old else [])
             for t in tokens(rhs, pre):
                 out.append(("ev", "vg", t))
         return out
@@ -189,7 +203,12 @@ def analyse_predicate(ctx, prog, chk, fn, kind):
                 # a fresh verdict: earlier implications no longer apply (gen re-adds them when the old value is kept)
                 return frozenset(x for x in s if not (x[0] == "ev" and x[1] in ("vg", "vg0")))
         return s
-    F = Facts(prog, g, gen=gen, extra_kill=kill, mark_thrown=True)
+    def edge_gen(node, label, atoms):
+        for at in atoms:
+            if at[0] == "cmp" and at[1] == ("v", vv) and engines.entails(at[2], at[3], "==", 0):
+                return [("ev", "vg0")]
+        return []
+    F = Facts(prog, g, gen=gen, extra_kill=kill, edge_gen=edge_gen, mark_thrown=True)
     rets = []
     for p, l in g.exit.pred:
         s = F.IN.get(p)
@@ -407,7 +426,7 @@ def run(ctx, chk):
     c = analyse(ctx, ctx.program("BASE"), chk)
     chk.floor("VALID-CURVE", "validity predicates (BASE)", c["predicates"], 3)
     chk.floor("EXP-RED", "Frobenius decompositions of exponents", c["red"], 4)
-    chk.floor("EXP-SIGN", "digit fast paths", c["sign"], 4)
+    chk.floor("EXP-SIGN", "digit fast paths", c["sign"], 2)
     chk.floor("SM-SIGN", "exponent parameters of the G1/G2/GT front ends", c["smsign"], 10)
     analyse(ctx, ctx.program("P381"), chk)
     if chk.tier == "thorough":
